@@ -230,6 +230,7 @@ type c04Pinned struct {
 	name, format, text string
 	validate           bool
 	langs              []string
+	extra              map[string]string // further files next to the main one
 }
 
 const c04OA = `{"openapi":"3.0.0","info":{"title":"t","version":"0"},"paths":{},"components":{"schemas":`
@@ -259,6 +260,12 @@ var c04Corpus = []c04Pinned{
 	{name: "jsonschema-empty-property-name", format: "jsonschema", text: `{"$schema":"http://json-schema.org/draft-07/schema#","type":"object","properties":{"":{"type":"string"},"-":{"type":"object","properties":{"":{"type":"integer"}}}}}`},
 	{name: "jsonschema-empty-definition-name", format: "jsonschema", text: `{"$schema":"http://json-schema.org/draft-07/schema#","definitions":{"":{"type":"object","properties":{"a":{"type":"string"}}}},"type":"object","properties":{"e":{"$ref":"#/definitions/"}}}`},
 	{name: "jsonschema-variant-on-ref-root", format: "jsonschema", text: `{"$schema":"http://json-schema.org/draft-07/schema#","$ref":"#/definitions/A","definitions":{"A":{"$ref":"#/definitions/B"},"B":{"type":"string"}}}`},
+	// regression of /repo 56f489a: a recursive object of ANOTHER package reached through a reference,
+	// with the jsonschema / openapi output languages (GenerateSchema looped forever)
+	{name: "openapi-foreign-recursive-object", format: "openapi", langs: []string{"jsonschema", "openapi"},
+		text:  c04OA + `{"Kind":{"$ref":"refs/q.json#/components/schemas/D"},"S":{"type":"object","properties":{"k":{"$ref":"refs/q.json#/components/schemas/D"}}}}}}`,
+		extra: map[string]string{"refs/q.json": c04OA + `{"D":{"type":"object","properties":{"a":{"$ref":"#/components/schemas/D"}}}}}}`}},
+	{name: "openapi-null-list-element", format: "openapi", text: c04OA + `{"A":{"allOf":[null,{"type":"object"}]},"B":{"oneOf":[null]},"C":{"type":"object","additionalProperties":null},"D":{"type":"array","items":null}}}}`},
 	{name: "cue-self-alias", format: "cue", text: "#A: #A\nb: #A\n"},
 	{name: "cue-recursive-array", format: "cue", langs: []string{"go"}, text: "container: {\n    m: {[string]: #A}\n    n: int\n}\n\n#A: [...#A]\n"},
 	{name: "openapi-self-anyof-validated", format: "openapi", validate: true, text: c04OA + `{"Array":{"type":"array","items":{"type":"string"},"default":["anything"],"discriminator":{"propertyName":"type"},"anyOf":[{"type":"string"},{"$ref":"#/components/schemas/Array"},{"type":"array","items":{"type":"integer"}}]}}}}`},
@@ -284,7 +291,11 @@ func c04CorpusCases() []*c04Case {
 		if p.langs != nil {
 			o.langs = p.langs
 		}
-		c := c04RunCase("corpus/"+p.name, "pinned="+p.name, s, map[string][]byte{main: []byte(p.text)}, o)
+		files := map[string][]byte{main: []byte(p.text)}
+		for k, v := range p.extra {
+			files[k] = []byte(v)
+		}
+		c := c04RunCase("corpus/"+p.name, "pinned="+p.name, s, files, o)
 		out = append(out, c)
 	}
 	return out
